@@ -38,6 +38,8 @@ def run(ctx):
     ctx.rule('C05.j-store-geometry-rewritten', 'the shard store rewrites its whole geometry (every field, on every path) at each resize, so that nothing of an earlier configuration (stride, byte length) shapes a later round (clause shared with C04.d)')
     from . import c04 as c04_
     ctx.guard('C05.analysable', c04_.store_resize_complete, ctx, ctx.facts('x86_64'), 'x86_64', 'C05.j-store-geometry-rewritten')
+    ctx.rule('C05.k-insert-always-stores', 'the shard store copies an added shard into its slot on every path: no data-dependent skip ("all zero, the buffer is zero anyway") can leave the bytes of an earlier round in a slot that the bitmap then marks as received')
+    ctx.guard('C05.analysable', insert_always_stores, ctx, ctx.facts('x86_64'), 'x86_64')
     ctx.rule('C05.i-new-and-reset-decide-alike', 'new and reset of the default rate take the rate from the one decision function on (original_count, recovery_count): a reset codec is the codec a fresh one would be (clause shared with C09.b)')
     from . import c09 as c09_
     ctx.guard('C05.analysable', ctx.shared, {'C09.b-single-source': 'C05.i-new-and-reset-decide-alike'}, c09_.check, ctx, ctx.facts('x86_64'), 'x86_64')
@@ -636,6 +638,26 @@ def same_configuration_fast_path(facts, g, gb, pname, full_reset, resets, gok, w
             if cleared and not [ob for ob in gok if ob in reach and ob not in stop]:
                 return P.path
     return None
+
+
+def insert_always_stores(ctx, facts, cfg):
+    R = 'C05.k-insert-always-stores'
+    from . import roles as roles_mod
+    RL = roles_mod.roles(facts)
+    ins = RL.get(ctx, 'store.insert', R, cfg)
+    if ins is None:
+        return
+    body = ins.body
+    rets = [b for b in range(body.n) if body.term(b)['k'] == 'return' and not body.blocks[b]['cleanup']]
+    copies = [(b, t) for b, t in body.calls() if re.search(r'::(copy_from_slice|clone_from_slice|copy_within|copy_nonoverlapping|write_bytes|fill)$', t['callee'].get('path') or '')
+              and not body.blocks[b]['cleanup']]
+    always = [(b, t) for b, t in copies if rets and all(body.dominates(b, r) for r in rets)]
+    ctx.floor(R, 1, len(copies), 'copying calls in the store\'s insert', cfg=cfg)
+    if always:
+        ctx.ok(R, '%s@%s' % (ins.path, cfg), {'copy_on_every_path': always[0][1]['line'], 'copies': len(copies)})
+    else:
+        ctx.violation(R, 'insert-may-skip', '%s can return without copying anything into the slot (no copying call dominates every return): the slot keeps the bytes of an earlier round'
+                      % ins.path, site=ins.span, fn=ins.path, cfg=cfg)
 
 
 def handover_rule(ctx, facts, cfg):
